@@ -9,6 +9,8 @@
  *
  * usage: mc_unit_driver <script>      script lines:  X <id> | T <aid> <times> <TYPE> <fields..> | R | E
  * (T = push_transition of a transition built by the real decoding path, R = remove_last_event, E = end + dump)
+ *   Y <id>  followed by two T lines: no execution; prints {"pair":id,"d12":..,"d21":..,"s1":..,"s2":..} = the real
+ *   Transition::dispatch_depends between the two transitions, in both directions (C39)
  */
 #include "mc_trans.hpp"
 #include "src/mc/explo/odpor/Execution.hpp"
@@ -49,6 +51,8 @@ int main(int argc, char** argv)
   std::vector<std::string> hb_push, racing_push;
   int removed = 0;
   long lineno = 0;
+  long pair_id = -1;
+  std::vector<TransitionPtr> pair;
   try {
     while (std::getline(in, line)) {
       lineno++;
@@ -58,12 +62,26 @@ int main(int argc, char** argv)
       std::string cmd;
       ls >> cmd;
       if (cmd == "X") {
+        pair_id = -1;
         ls >> id;
         exec = std::make_unique<Execution>();
         seq.clear();
         hb_push.clear();
         racing_push.clear();
         removed = 0;
+      } else if (cmd == "Y") {
+        ls >> pair_id;
+        pair.clear();
+      } else if (cmd == "T" && pair_id >= 0) {
+        auto d = vmc::parse_desc(ls);
+        pair.push_back(vmc::build(d));
+        if (pair.size() == 2) {
+          std::cout << "{\"pair\":" << pair_id << ",\"d12\":" << (pair[0]->dispatch_depends(pair[1].get()) ? 1 : 0)
+                    << ",\"d21\":" << (pair[1]->dispatch_depends(pair[0].get()) ? 1 : 0) << ",\"s1\":\""
+                    << vmc::json_escape(pair[0]->to_string(true)) << "\",\"s2\":\""
+                    << vmc::json_escape(pair[1]->to_string(true)) << "\"}\n";
+          pair_id = -1;
+        }
       } else if (cmd == "T") {
         auto d = vmc::parse_desc(ls);
         TransitionPtr t = vmc::build(d);
